@@ -22,9 +22,10 @@ type Tape struct {
 	Supply      func() (uint32, bool) // called when buf is empty; false => tape exhausted
 	Chunk       []int                 // delivery sizes cycle (0/empty => deliver everything requested)
 	chunkPos    int
-	chunkFrom   int // chunking applies from this 1-based Read call on (0/1: from the start)
-	FailAt      int // 1-based index of the Read call that fails (0 = never)
-	FailGot     int // bytes delivered by the failing call before the error
+	chunkFrom   int   // chunking applies from this 1-based Read call on (0/1: from the start)
+	FailAt      int   // 1-based index of the Read call that fails (0 = never)
+	FailGot     int   // bytes delivered by the failing call before the error
+	FailErr     error // error returned by the failing call (default ErrTapeFault)
 	Reads       int
 	Bytes       int
 	Words       []uint32 // every word handed out, in order
@@ -64,6 +65,9 @@ func (t *Tape) Read(p []byte) (int, error) {
 		t.Bytes += n
 		if t.KeepLog {
 			t.Log = append(t.Log, ReadRec{len(p), n, true})
+		}
+		if t.FailErr != nil {
+			return n, t.FailErr
 		}
 		return n, ErrTapeFault
 	}
